@@ -240,6 +240,11 @@ def run(ctx):
     ntr = 16 if quick else 96
     rc, out = vf.run_gotest(ctx, binary, "^TestVfStreamsStress$", env={"VF_NTRACES": ntr, "VF_NOPS": 40 if quick else 120},
                             timeout=600)
+    # histories too long to run: the start-word counter preset to the values they leave behind
+    rc2, out2 = vf.run_gotest(ctx, binary, "^TestVfStreamsLongHistory$", env={}, timeout=600)
+    if "VFHARNESS" in out2 or ("VFLONGHIST ok" not in out2 and "VIOLATION all-ids" not in out2):
+        raise vf.Inconclusive("long-history driver did not run:\n" + out2[-1500:])
+    out = out + "\n" + out2
     if "VIOLATION all-ids" in out:
         ctx.violation("sequential-all-ids", "sequential acquisition did not hand out every non-reserved id: " +
                       re.search(r"VIOLATION all-ids[^\n]*", out).group(0))
